@@ -392,7 +392,17 @@ pub fn gen_body(rng: &mut Rng, consume_focus: bool, big: bool) -> ConnCase {
     let n = if big && rng.chance(1, 4) { 70000 } else { *rng.pick(BODY_LENS) };
     let n = if HUGE.with(|h| h.replace(false)) { 400_000 } else { n };
     let n = if framing == Framing::None { 0 } else { n };
-    set_body(rng, &mut r, framing, n);
+    set_body(rng, &mut r, framing.clone(), n);
+    // message framing does not depend on the protocol version: kept-alive HTTP/1.0 requests too
+    if rng.chance(1, 5) {
+        r.ver = (1, 0);
+        r.hdrs.push((crate::recase(rng, "Connection"), "keep-alive".into()));
+    }
+    // a client that announces Expect: 100-continue but does not wait for the interim response
+    if framing != Framing::None && rng.chance(1, 8) {
+        r.hdrs.push((crate::recase(rng, "Expect"), "100-continue".into()));
+        r.expect100 = true;
+    }
     reqs.push(r);
     let id = n_before;
     let mut a = rich_action(id, rng, n, true);
@@ -538,14 +548,17 @@ pub fn gen_bad(rng: &mut Rng, class: &'static str, raw: &[u8], pos: usize, late:
         rawv.extend_from_slice(b"GET /smuggled HTTP/1.1\r\nHost: x\r\n\r\n");
     }
     reqs.push(AReq::bad(class, rawv));
-    let n_tail = rng.range(0, 2);
+    // a client that sends a request in a version the server does not speak and WAITS for the
+    // answer on the open connection: the 505 must arrive without anything else being sent
+    let waits = class == "e505" && rng.chance(1, 3);
+    let n_tail = if waits { 0 } else { rng.range(0, 2) };
     for i in 0..n_tail {
         reqs.push(AReq::get(&format!("/tail{}", i)));
     }
     for i in 0..3 {
         script.push(simple_action(pos + i, rng));
     }
-    assemble(rng, &reqs, script, Mode::HalfClose, "")
+    assemble(rng, &reqs, script, if waits { Mode::Open } else { Mode::HalfClose }, "")
 }
 
 pub const CONN_VALUES: &[&str] = &["close", "Close", "CLOSE", "keep-alive", "Keep-Alive", "upgrade", "foo", "keep-alive, foo", "foo, close", "close, keep-alive", "TE", "", "enclosed", "keepalive"];
@@ -652,6 +665,13 @@ pub fn gen_c18(rng: &mut Rng) -> ConnCase {
     let n = *rng.pick(&[0usize, 1, 10, 1024, 1025, 3000]);
     let framing = if n > 0 && rng.chance(1, 4) { Framing::Chunked } else { Framing::Len };
     set_body(rng, &mut r, framing, n);
+    // the expectation is not a matter of the protocol version
+    if rng.chance(1, 4) {
+        r.ver = (1, 0);
+        r.hdrs.push(("Connection".into(), "keep-alive".into()));
+    }
+    // a client that does not wait for the interim response (it is entitled not to)
+    let eager = expect && rng.chance(1, 3);
     let (ar, rd) = match rng.below(5) {
         0 => (0, 0),
         1 => (1, n),
@@ -670,7 +690,7 @@ pub fn gen_c18(rng: &mut Rng) -> ConnCase {
     if expect {
         // withhold the body until the server says something — only when the application will
         // ask for it (otherwise a real client would time out and send anyway; we send at once)
-        if ar > 0 {
+        if ar > 0 && !eager {
             let head_end = c.bytes.windows(4).position(|w| w == b"\r\n\r\n").map(|p| p + 4).unwrap_or(0);
             c.hold = Some(head_end);
             // the interim response must be there before the body is released
